@@ -64,3 +64,38 @@ pub fn search(tier: &str) -> Option<Value> {
     }
     None
 }
+
+
+/// Line anchors: the specification `^a 'A'`, `b 'B'`, `\n ;` lexes a text over {a, b, newline}.  By the property a rule is
+/// chosen when its regex matches *at that position of the input*: `^a` matches an `a` only at the start of the input or
+/// directly after a newline; an `a` anywhere else matches no rule and is the (single, final) lexing error.
+pub fn run_anchor(input: &str) -> Outcome {
+    use lrlex::{DefaultLexerTypes, LRNonStreamingLexerDef, LexerDef};
+    use lrpar::{Lexeme, Lexer};
+    let expected = "`^a` matches only at the start of a line".to_string();
+    let spec = "%%\n^a 'A'\nb 'B'\n\\n ;\n";
+    let r = catch_unwind(AssertUnwindSafe(|| {
+        let mut def = LRNonStreamingLexerDef::<DefaultLexerTypes<u32>>::from_str(spec).ok()?;
+        let ids: std::collections::HashMap<&str, u32> = [("A", 0u32), ("B", 1u32)].into_iter().collect();
+        def.set_rule_ids(&ids);
+        let lexer = def.lexer(input);
+        let mut got: Vec<(u32, usize)> = Vec::new();
+        let mut err = None;
+        for l in lexer.iter() { match l { Ok(l) => got.push((l.tok_id(), l.span().start())), Err(e) => { err = Some(lrpar::LexError::span(&e).start()); break; } } }
+        Some((got, err))
+    }));
+    let (got, err) = match r { Ok(Some(x)) => x, Ok(None) => return Outcome { fails: false, observed: "specification rejected".into(), expected }, Err(_) => return Outcome { fails: true, observed: "panic".into(), expected } };
+    let b = input.as_bytes();
+    let mut exp: Vec<(u32, usize)> = Vec::new();
+    let mut exp_err = None;
+    for (i, c) in b.iter().enumerate() {
+        match c {
+            b'a' => if i == 0 || b[i - 1] == b'\n' { exp.push((0, i)); } else { exp_err = Some(i); break; },
+            b'b' => exp.push((1, i)),
+            b'\n' => (),
+            _ => { exp_err = Some(i); break; }
+        }
+    }
+    if got == exp && err == exp_err { Outcome { fails: false, observed: "agree".into(), expected } }
+    else { Outcome { fails: true, observed: format!("lexing {:?} gives lexemes (token, byte) {:?}, error {:?}; with `^` meaning start of line: {:?}, error {:?}", input, got, err, exp, exp_err), expected } }
+}
